@@ -156,7 +156,7 @@ class ThrottleExecutor(CanCustomizeBind, Executor):
 
     def _block_until_ready(self, throttle_val):
         while self._block and not self._shutdown.is_shutdown:
-            if len(self._to_submit) < throttle_val:
+            if throttle_val is None or len(self._to_submit) < throttle_val:
                 return
             self._log.debug("%s: throttling on submit", self._name)
             self._event.wait(30.0)
